@@ -12,8 +12,15 @@
 (* A session drop loses what is in flight, resets the cache for that       *)
 (* target (announced to the subscriber) and the target then replays its    *)
 (* current state on the new stream.                                        *)
+(* A target may also send a MIXED notification: one update and one delete  *)
+(* in one message (the replace / resync idiom); the cache refuses the      *)
+(* update when it re-asserts what is stored, and applies the delete all    *)
+(* the same.                                                               *)
 (* Mutant: "none", "no_register" (configured targets are never registered  *)
-(* with the cache), "no_reset" (the cache is not reset on reconnect).      *)
+(* with the cache), "no_reset" (the cache is not reset on reconnect),      *)
+(* "mixed_drops_delete" (a 1-update + 1-delete notification takes the      *)
+(* single-update path: seeded changes C02-3 / C01-4),                      *)
+(* "refused_update_skips_deletes" (seeded change C01-5).                   *)
 (***************************************************************************)
 EXTENDS Naturals, Sequences, FiniteSets, TLC
 
@@ -26,6 +33,7 @@ Absent == 0
 Upd(t, p, v) == [k |-> "upd", t |-> t, p |-> p, v |-> v]
 Del(t, p)    == [k |-> "del", t |-> t, p |-> p]
 ResetMsg(t)  == [k |-> "reset", t |-> t]
+Mix(t, p, v, d) == [k |-> "mix", t |-> t, p |-> p, v |-> v, d |-> d]
 
 Init ==
     /\ truth = [t \in Targets |-> [p \in Paths |-> Absent]]
@@ -42,15 +50,32 @@ TargetSend(t, p, v) ==
     /\ wire' = [wire EXCEPT ![t] = Append(@, IF v = Absent THEN Del(t, p) ELSE Upd(t, p, v))]
     /\ UNCHANGED <<store, known, subscribed, subq, view, drops>>
 
+(* one message carrying an update of pu and a delete of pd *)
+TargetSendMixed(t, pu, v, pd) ==
+    /\ pu # pd /\ v # Absent
+    /\ sends < MaxSends /\ sends' = sends + 1
+    /\ truth' = [truth EXCEPT ![t] = [@ EXCEPT ![pu] = v, ![pd] = Absent]]
+    /\ wire' = [wire EXCEPT ![t] = Append(@, Mix(t, pu, v, pd))]
+    /\ UNCHANGED <<store, known, subscribed, subq, view, drops>>
+
 (* manager callback + collector glue + cache ingest + feed *)
 Deliver(t) ==
     /\ wire[t] # <<>>
     /\ LET m == Head(wire[t]) IN
        /\ wire' = [wire EXCEPT ![t] = Tail(@)]
-       /\ IF t \in known
-          THEN /\ store' = [store EXCEPT ![t][m.p] = IF m.k = "upd" THEN m.v ELSE Absent]
+       /\ IF t \notin known THEN UNCHANGED <<store, subq>>        \* "target not found in cache": dropped
+          ELSE IF m.k = "mix"
+          THEN LET refused == store[t][m.p] = m.v      \* a re-assertion of what is stored: refused as stale
+                   doDel   == /\ Mutant # "mixed_drops_delete"
+                              /\ ~(Mutant = "refused_update_skips_deletes" /\ refused)
+                   s1 == IF refused THEN store[t] ELSE [store[t] EXCEPT ![m.p] = m.v]
+                   s2 == IF doDel THEN [s1 EXCEPT ![m.d] = Absent] ELSE s1 IN
+               /\ store' = [store EXCEPT ![t] = s2]
+               /\ subq' = IF subscribed
+                          THEN subq \o (IF refused THEN <<>> ELSE <<Upd(t, m.p, m.v)>>) \o (IF doDel THEN <<Del(t, m.d)>> ELSE <<>>)
+                          ELSE subq
+          ELSE /\ store' = [store EXCEPT ![t][m.p] = IF m.k = "upd" THEN m.v ELSE Absent]
                /\ subq' = IF subscribed THEN Append(subq, m) ELSE subq
-          ELSE UNCHANGED <<store, subq>>        \* "target not found in cache": dropped
     /\ UNCHANGED <<truth, known, subscribed, view, sends, drops>>
 
 (* the stream breaks: in-flight data is lost, the cache is reset, the target replays its state *)
@@ -85,6 +110,7 @@ ClientApply ==
 
 Next ==
     \/ \E t \in Targets, p \in Paths, v \in Vals \cup {Absent} : TargetSend(t, p, v)
+    \/ \E t \in Targets, pu \in Paths, pd \in Paths, v \in Vals : TargetSendMixed(t, pu, v, pd)
     \/ \E t \in Targets : Deliver(t) \/ SessionDrop(t)
     \/ SubscriberStart \/ ClientApply
 Spec == Init /\ [][Next]_vars /\ WF_vars(\E t \in Targets : Deliver(t)) /\ WF_vars(ClientApply) /\ WF_vars(SubscriberStart)
